@@ -49,6 +49,7 @@ using namespace simdrv;
 namespace simdrv {
 
 FILE* g_out = nullptr;
+std::string g_trace_path;
 
 void emit(char const* fmt, ...)
 {
@@ -173,15 +174,18 @@ int main(int argc, char* argv[])
 	if (argc < 3) { std::fprintf(stderr, "usage: simdrv <scenarios> <trace-out> [--timeout s] [--nofork]\n"); return 2; }
 	int timeout_s = 20;
 	bool nofork = false;
+	std::string warmup_file;
 	for (int i = 3; i < argc; ++i)
 	{
 		if (!std::strcmp(argv[i], "--timeout") && i + 1 < argc) timeout_s = std::atoi(argv[++i]);
 		else if (!std::strcmp(argv[i], "--nofork")) nofork = true;
+		else if (!std::strcmp(argv[i], "--warmup") && i + 1 < argc) warmup_file = argv[++i];
 	}
 
-	std::ifstream in(argv[1]);
-	if (!in) { std::fprintf(stderr, "cannot open %s\n", argv[1]); return 2; }
-	std::vector<Scenario> scns;
+	auto parse_file = [](char const* path, std::vector<Scenario>& scns) -> bool
+	{
+	std::ifstream in(path);
+	if (!in) { std::fprintf(stderr, "cannot open %s\n", path); return false; }
 	std::string line;
 	Scenario cur;
 	bool is_open = false;
@@ -200,7 +204,16 @@ int main(int argc, char* argv[])
 		else cur.decl.push_back(t);
 	}
 	if (is_open) scns.push_back(cur);
+	return true;
+	};
+	std::vector<Scenario> scns;
+	if (!parse_file(argv[1], scns)) return 2;
+	// scenarios run first in the same process, their output discarded ("simulations that
+	// ran earlier in the same process")
+	std::vector<Scenario> warm;
+	if (!warmup_file.empty() && !parse_file(warmup_file.c_str(), warm)) return 2;
 
+	g_trace_path = argv[2];
 	g_out = std::fopen(argv[2], "w");
 	if (!g_out) { std::fprintf(stderr, "cannot open %s\n", argv[2]); return 2; }
 
@@ -224,6 +237,14 @@ int main(int argc, char* argv[])
 			if (devnull >= 0) dup2(devnull, 1);
 			alarm(unsigned(timeout_s));
 			int r = 0;
+			if (!warm.empty())
+			{
+				FILE* real = g_out;
+				g_out = std::fopen("/dev/null", "w");
+				for (auto const& w : warm) { try { run_child(w); } catch (...) {} }
+				std::fclose(g_out);
+				g_out = real;
+			}
 			try { r = run_child(s); }
 			catch (std::exception const& e) { emit("X exception %s", e.what()); r = 3; }
 			catch (...) { emit("X exception unknown"); r = 3; }
